@@ -62,10 +62,11 @@ def all_ops():
     return ops
 
 
-def run_history(P, hist, op):
+def run_history(P, hist, op, init=()):
     def one(ctx):
         it = driver_interp(P, ctx, "model")
-        entry = new_obj(it, P, "model", "Entry", entry_type="the-type", key="the-key", fields=AList([]), start_line=3, raw="raw")
+        entry = new_obj(it, P, "model", "Entry", entry_type="the-type", key="the-key",
+                        fields=AList([new_obj(it, P, "model", "Field", k_, v_) for k_, v_ in init]), start_line=3, raw="raw")
 
         def apply(o):
             k = o[0]
@@ -135,6 +136,13 @@ def run(P: Program, rep: Report):
                     seen[t] = hist + [op]
                     nxt.append(t)
         frontier = nxt
+    # every arrangement of the keys as the entry's initial fields (as the splitter builds entries), one operation each
+    import itertools as _it
+    for r_ in range(1, len(KEYS) + 1):
+        for perm in _it.permutations(KEYS, r_):
+            st = [(k_, VALUES[i_ % len(VALUES)]) for i_, k_ in enumerate(perm)]
+            for op in ops:
+                tasks.append(((), op, st))
     rep.count("mapping_states", len(seen))
     rep.count("mapping_operations", len(tasks))
     rep.extra["states"] = len(seen)
@@ -145,8 +153,10 @@ def run(P: Program, rep: Report):
     entry_loc = P.cls("model", "Entry").loc
     for hist, op, state in tasks:
         want_state, want_res = ref_apply(state, op)
-        hs = "; ".join(f"{o[0]}({', '.join(map(repr, o[1:]))})" for o in hist + [op])
-        for o in run_history(P, hist, op):
+        init = state if hist == () else ()
+        hist = list(hist)
+        hs = (f"entry with fields {init!r}; " if init else "") + "; ".join(f"{o[0]}({', '.join(map(repr, o[1:]))})" for o in hist + [op])
+        for o in run_history(P, hist, op, init):
             if o["kind"] == "unsupported":
                 raise AnalysisError(f"C19: analyser cannot follow Entry.{op[0]}: {o['msg']}")
             if o["kind"] == "history-raise":
@@ -173,6 +183,21 @@ def run(P: Program, rep: Report):
     if not fails:
         rep.ok("C19.R1", f"entry-mapping:{n_ok}-operations-agree", entry_loc)
     rep.samples.append({"rule": "C19.R1", "operations": [list(t[1]) for t in tasks[100:400:75]]})
+
+    def reserved(ctx):
+        it = driver_interp(P, ctx, "model")
+        out = []
+        for t_, k_ in (("", ""), ("article", ""), ("", "key"), ("0", "0")):
+            e = new_obj(it, P, "model", "Entry", entry_type=t_, key=k_, fields=AList([new_obj(it, P, "model", "Field", "a", "1")]), start_line=0, raw="r")
+            try:
+                out.append((t_, k_, it.do_index(e, "ENTRYTYPE"), it.do_index(e, "ID")))
+            except Raised as r:
+                out.append((t_, k_, "raises", r.cls_name()))
+        return out
+    for ctx, rows in explore(reserved, 20):
+        for t_, k_, gt, gk in rows:
+            rep.check((gt, gk) == (t_, k_), "C19.R1", f"reserved-lookups:type={t_!r}:key={k_!r}", entry_loc,
+                      f"entry with type {t_!r} and key {k_!r}: ['ENTRYTYPE'] / ['ID'] give {gt!r} / {gk!r}")
 
     # ---------------------------------------------------------------- equality
     rep.rule("C19.R4", "structural equality: a block / field equals its copy and its deep copy (both directions), differs from "
@@ -219,6 +244,8 @@ def run(P: Program, rep: Report):
                     md = mk(**base)
                     call(it, md, "set_parser_metadata", "m", 1)
                     res.append(("perturbed-metadata", it.equal(a, md) or it.equal(md, a), False))
+                    res.append(("with-metadata-copy-equal", it.equal(md, copy_abs(it, md, False, {})) and it.equal(copy_abs(it, md, False, {}), md), True))
+                    res.append(("with-metadata-deepcopy-equal", it.equal(md, copy_abs(it, md, True, {})) and it.equal(copy_abs(it, md, True, {}), md), True))
                 if cname == "ExplicitComment":
                     o = builders(it)["ImplicitComment"][0](**base)
                     res.append(("other-class-same-content", it.equal(a, o) or it.equal(o, a), False))
@@ -243,3 +270,8 @@ def run(P: Program, rep: Report):
             rep.fail("C19.R5", f"class:{c.name}:custom-eq", c.loc, f"{c.name} defines its own __eq__/__hash__/__slots__")
         else:
             rep.ok("C19.R5", f"class:{c.name}", c.loc, nontrivial=False)
+
+    rep.rule("C19.R9", "no unsafe memoisation in the modules this property rests on: a function decorated with lru_cache / cache / "
+                      "cached_property neither takes nor returns a mutable object (else later calls see stale or shared results)")
+    from . import common as _common
+    _common.no_unsafe_memoisation(P, rep, "C19.R9", ['model'])
